@@ -79,6 +79,19 @@ func (e *scriptEnv) execFind(op string, h handle, a []string) (string, bool) {
 		// restore (statements do not share the slice, but keep the harness honest)
 		copy(pat, origPat)
 	}()
+	// on a counting source used by this script alone: every call the digit source receives while
+	// the search is in progress looks at the caller's pattern — the library must not have touched
+	// it, not even temporarily (C14: "never modifies reference-typed arguments")
+	if e.src != nil && !e.shared && e.src.onCall == nil && !mutating {
+		e.src.onCall = func(int) {
+			for i := range pat {
+				if pat[i] != origPat[i] {
+					e.argTouched = true
+				}
+			}
+		}
+		defer func() { e.src.onCall = nil }()
+	}
 	n := 0
 	if len(a) > 3 {
 		n = atoi(a[3])
